@@ -23,7 +23,8 @@ ASSUMPTIONS = [
     "comparison is bit-meaningful",
     "with top_k and top_p both active the nucleus mass is measured on the top-k-renormalised distribution "
     "(the distribution top-p is applied to)",
-    "float32 tolerance: 1e-5 on sums/masses, ties = logits equal after the library's own float32 scaling",
+    "float32 tolerance: 1e-5 on sums/masses plus 2 ulp of the largest scaled logit magnitude (the representation error of "
+    "x/T in float32: 1e-3 at |x/T| ~ 1e4), ties = logits equal after the library's own float32 scaling",
 ]
 REQUIRED_COUNTERS = ["process_logits_calls", "greedy_calls", "sampling_calls", "strategy_step_calls", "shift_pairs"]
 MIN_NONTRIVIAL = {"quick": 200, "thorough": 2000}
@@ -144,6 +145,14 @@ def run_case(ctx, case):
         z32 = torch.tanh(z32) * clip
     z32 = (z32.masked_fill(~mask, float("-inf"))) / T
 
+    # float32 conditioning: the scaled logits the softmax sees carry a representation error of half an ulp of their
+    # magnitude (|x/T| ~ 1e4 -> 5e-4), which moves probabilities by up to ~2 ulp relative to the exact-arithmetic reference
+    import math
+
+    zfin = z32[torch.isfinite(z32)].abs()
+    zmag = float(zfin.max()) if zfin.numel() else 1.0
+    cond = 2.0 * 2.0 ** (math.floor(math.log2(max(zmag, 1e-30))) - 23)
+
     nfeas = mask.sum(-1)
     if (nfeas >= 2).any() and ((~mask).any() or k > 0 or 0 < p < 1):
         ctx.nontrivial_case(case)
@@ -199,13 +208,13 @@ def run_case(ctx, case):
                 base = torch.where(inside, base, torch.zeros_like(base))
                 base = base / base.sum()
             mass = float(base[kept].sum())
-            if mass < min(p, 1.0) - 1e-5:
+            if mass < min(p, 1.0) - 1e-5 - cond:
                 viol("topp_mass", b, f"kept mass {mass} < top_p {p}")
         if k == 0 and (p == 0):
             # L6 unfiltered: must equal the float64 masked softmax
             ctx.count("law_matches_reference")
             err = float((pr - pref[b]).abs().max())
-            if err > 1e-5:
+            if err > 1e-5 + cond:
                 viol("reference_mismatch", b, f"max |p - p_ref| = {err}")
         # monotone: kept probabilities ordered like logits (filters never reorder)
         ctx.count("law_order")
